@@ -728,10 +728,10 @@ MODULES = {"tl", "T", "np", "tenalg", "math", "warnings", "scipy", "tensorly", "
 # for the library functions recorded as exact in the extraction baseline (EXACT_CALLEES, assume-guarantee: each of them is re-certified
 # exact on every run).  Every other call is translated as RealOf(promotion): inside the precision class of its arguments (which is all the
 # level-1 / level-2 check needs, its verdict does not change), never known to be exact.  Lists give exactness per position of a returned tuple.
-EXACT_CALLS = {"dot", "matmul", "einsum", "tensordot", "kron", "solve", "qr", "concatenate", "stack", "outer", "list", "tuple", "reversed", "sorted", "iter", "next",
-               "zip", "enumerate", "dict", "CPTensor", "TuckerTensor", "TTTensor", "TRTensor", "TTMatrix", "Parafac2Tensor", "vstack", "hstack", "append", "pad",
-               "multiply", "add", "subtract", "maximum", "minimum", "power", "square", "negative", "cumsum", "triu", "tril", "atleast_2d", "squeeze", "broadcast_to",
-               "partial_svd_flip", "svd_flip"}
+EXACT_CALLS = {"dot", "matmul", "einsum", "kron", "solve", "qr", "clip", "multiply", "add", "subtract", "maximum", "minimum", "power", "square", "negative", "triu", "tril",
+               "atleast_2d", "broadcast_to"}
+CONTAINER_CALLS = {"list", "tuple", "reversed", "sorted", "iter", "next", "zip", "enumerate", "dict", "CPTensor", "TuckerTensor", "TTTensor", "TRTensor", "TTMatrix",
+                   "Parafac2Tensor", "concatenate", "stack", "vstack", "hstack", "pad"}
 PARTIAL_EXACT = {"lstsq": [True, False, False, False], "svd": [True, False, True], "truncated_svd": [True, False, True], "randomized_svd": [True, False, True],
                  "symeig_svd": [True, False, True], "eigh": [False, True], "svd_fun": [True, False, True]}
 EXACT_CALLEES = {}      # bare name of a library function -> True (every array output exact) | [bool per tuple position]; loaded from the baseline
@@ -742,7 +742,7 @@ def weak_only(e):
         return False
     if e[0] == "leaf":
         return e[1] in ("LPyI", "LPyF", "LPyC")
-    if e[0] in ("op", "div"):
+    if e[0] in ("op", "div", "alt"):
         return weak_only(e[1]) and weak_only(e[2])
     if e[0] in ("tofloat", "real"):
         return weak_only(e[1])
@@ -797,7 +797,17 @@ def join(a, b):
         return a
     if a == b:
         return a
-    return ("op", a, b)
+    return ("alt", a, b)     # alternatives / elements of a container: dtype-wise the promotion, exact only if both are
+
+
+def opjoin(xs):
+    """promotion of all operands (arithmetic): exact as soon as one operand is"""
+    r = None
+    for x in xs:
+        if x is None or x[0] in ("dtypeof", "dtconst"):
+            continue
+        r = x if r is None else ("op", r, x)
+    return r
 
 
 def joinlist(xs):
@@ -899,7 +909,7 @@ class Translator:
             return base      # .T, .factors, .weights, .core ...
         if isinstance(n, ast.Subscript):
             if isinstance(n.value, ast.Call) and isinstance(n.slice, ast.Constant) and isinstance(n.slice.value, int):
-                spec = self.spec_of(self.call_name(n.value))
+                spec = self.spec_of(self.call_name(n.value), n.value)
                 if isinstance(spec, list):
                     r = self.call(n.value, raw=True)
                     k = n.slice.value
@@ -1017,11 +1027,15 @@ class Translator:
                 return e[1] if e[0] == "dtypeof" else e
         return None
 
-    def spec_of(self, A):
-        if A in EXACT_CALLS:
+    def spec_of(self, A, node=None):
+        if A in EXACT_CALLS or A in CONTAINER_CALLS:
             return True
         if A in PARTIAL_EXACT:
             return PARTIAL_EXACT[A]
+        if node is not None and isinstance(node.func, ast.Attribute):
+            d = self.dotted(node.func)
+            if d is None or d[0] not in MODULES or d[0] in self.defined:
+                return None        # a method call on an object: not resolved to a library function by its bare name
         return EXACT_CALLEES.get(A)
 
     def call_name(self, n):
@@ -1110,7 +1124,7 @@ class Translator:
             tgt, val = (args + [None, None, None])[0], (args + [None, None, None])[2]
             return ("into", tgt, val if val is not None else PYI) if tgt is not None else None
         if A == "where":
-            return join(args[1], args[2]) if len(args) == 3 else INTS
+            return opjoin([args[1], args[2]]) if len(args) == 3 else INTS
         if A == "astype" and base_expr is not None:
             a = a0 if args else None
             if a is None and n.args and isinstance(n.args[0], ast.Name) and n.args[0].id in DTCONST:
@@ -1123,7 +1137,7 @@ class Translator:
         if A == "item":
             return PYF
         if A == "sum" and d == ["sum"]:
-            return join(PYI, joinlist(args))
+            return opjoin([PYI, joinlist(args)])
         # default: promotion of everything that goes in (modular summary of the callee / NumPy promotion); index / shape / boolean-mask
         # arguments select entries, they do not take part in the arithmetic
         allv = [x for x in [base_expr] + args + list(kws.values()) if x is not None]
@@ -1131,10 +1145,16 @@ class Translator:
             # shape / axis / index arguments of selection and re-arrangement functions do not take part in the arithmetic
             arrs = [x for x in allv if not idxlike(x, self.intvars, self.weakvars) and not weaklike(x, self.weakvars)]
             if arrs:
-                return joinlist(arrs + [x for x in allv if weaklike(x, self.weakvars)])
-            return joinlist(allv)
-        r = joinlist(allv)      # everything that goes in is promoted (NumPy arithmetic / modular summary of a library function)
-        return r if (raw or self.spec_of(A) is True) else self.inexact(r)
+                return opjoin(arrs + [x for x in allv if weaklike(x, self.weakvars)])
+            return opjoin(allv)
+        if A in EXACT_CALLS:
+            return opjoin(allv)      # NumPy arithmetic: the promotion of everything that goes in, exact as soon as one operand is
+        # container constructors and library functions (modular summary: the callee is certified separately under the assumption that ALL
+        # its array arguments have the data's dtype): everything that goes in is promoted; exact only if every array argument is
+        arrs = [x for x in allv if not idxlike(x, self.intvars, self.weakvars) and not weaklike(x, self.weakvars)]
+        rest = [x for x in allv if idxlike(x, self.intvars, self.weakvars) or weaklike(x, self.weakvars)]
+        r = opjoin([joinlist(arrs)] + rest)
+        return r if (raw or A in CONTAINER_CALLS or self.spec_of(A, n) is True) else self.inexact(r)
 
     def node_is_array(self, n):
         """True only when the value of the ast node is certainly an ndarray (not a NumPy / Python scalar): allocations, tl.tensor, copies,
@@ -1157,7 +1177,7 @@ class Translator:
             A = d[-1] if d else None
             if d and len(d) > 1 and d[-2] in RNG_NAMES:
                 return False
-            if A in ALLOC or A in ("tensor", "array", "asarray", "zeros_like", "ones_like", "empty_like", "full_like"):
+            if A in ALLOC or A in ("tensor", "array", "asarray", "zeros_like", "ones_like", "empty_like", "full_like", "concatenate", "stack", "arange"):
                 return True
             if A in ("copy", "sqrt", "abs", "exp", "log", "sign", "clip", "transpose", "reshape", "conj", "flip", "sort", "cumsum", "index_update", "astype") and (n.args or isinstance(n.func, ast.Attribute)):
                 base = n.args[0] if (n.args and (d is None or d[0] in MODULES)) else (n.func.value if isinstance(n.func, ast.Attribute) else None)
@@ -1329,7 +1349,7 @@ class Translator:
                         (self.arrayvars.add if isarr else self.arrayvars.discard)(t.id)
                 return
             if len(s.targets) == 1 and isinstance(s.targets[0], (ast.Tuple, ast.List)) and isinstance(s.value, ast.Call):
-                spec = self.spec_of(self.call_name(s.value))
+                spec = self.spec_of(self.call_name(s.value), s.value)
                 if isinstance(spec, list) and len(spec) == len(s.targets[0].elts):
                     r = self.call(s.value, raw=True)
                     for t, okk in zip(s.targets[0].elts, spec):
@@ -1500,8 +1520,8 @@ def gallina(e, vid):
         return f"(Leaf {e[1]})"
     if k == "var":
         return f"(Var {vid(e[1])})"
-    if k in ("op", "div", "into"):
-        c = {"op": "Op", "div": "Div", "into": "Into"}[k]
+    if k in ("op", "div", "into", "alt"):
+        c = {"op": "Op", "div": "Div", "into": "Into", "alt": "Alt"}[k]
         b = e[2] if e[2] is not None and e[2][0] not in ("dtypeof", "dtconst") else PYI
         a = e[1] if e[1] is not None and e[1][0] not in ("dtypeof", "dtconst") else PYI
         return f"({c} {gallina(a, vid)} {gallina(b, vid)})"
@@ -1611,7 +1631,7 @@ def extract_diagnose(repo, qual, mu="B"):
             return d_ in ("F32", "WI", "WF"), d_ == "F32"
         if k == "var":
             return e[1] in D, e[1] in S
-        if k in ("op", "div"):
+        if k in ("op", "div", "alt"):
             a = ok(e[1], D, S)
             b = ok(e[2], D, S) if e[2] is not None and e[2][0] not in ("dtypeof", "dtconst") else (True, False)
             return a[0] and b[0], a[1] or b[1]
@@ -1674,8 +1694,8 @@ def callee_specs(ex, exact):
     per = {}
     for q, r in ex.items():
         name = q.rsplit(".", 1)[1]
-        if "error" in r or name.startswith("__"):
-            continue
+        if "error" in r or name.startswith("__") or q.rsplit(".", 2)[1][:1].isupper():
+            continue          # methods are never resolved by their bare name (see Translator.spec_of)
         e = exact.get(q)
         outs = set(e["outs"]) if e else set()
         info = r["retinfo"]
